@@ -3,6 +3,7 @@ package core
 import (
 	"errors"
 	"fmt"
+	"unicode/utf8"
 
 	"github.com/jsightapi/jsight-schema-core/bytes"
 	"github.com/jsightapi/jsight-schema-core/kit"
@@ -97,6 +98,10 @@ func (core *JApiCore) addOperationID(d *directive.Directive) *jerr.JApiError {
 	}
 	if d.Annotation != "" {
 		return d.KeywordError(jerr.AnnotationIsForbiddenForTheDirective)
+	}
+	// Invalid bytes become U+FFFD in the output, where different ids would coincide.
+	if !utf8.ValidString(id) {
+		return d.KeywordError(fmt.Sprintf("%s (%s)", jerr.IncorrectParameter, "OperationId"))
 	}
 
 	if _, ok := core.uniqOperationID[id]; ok {
@@ -589,6 +594,12 @@ func (core *JApiCore) addProtocol(d *directive.Directive) *jerr.JApiError {
 func (core *JApiCore) addJsonRpcMethod(d *directive.Directive) *jerr.JApiError {
 	if d.NamedParameter("MethodName") == "" {
 		return d.KeywordError(fmt.Sprintf("%s (%s)", jerr.RequiredParameterNotSpecified, "MethodName"))
+	}
+
+	// Invalid bytes become U+FFFD in the output: methods which differ in such bytes only
+	// would get the same interaction id.
+	if !utf8.ValidString(d.NamedParameter("MethodName")) {
+		return d.KeywordError(fmt.Sprintf("%s (%s)", jerr.IncorrectParameter, "MethodName"))
 	}
 
 	if !isProtocolExists(d) {
